@@ -101,14 +101,14 @@ Lemma sec_tail_notl inow (y s' : secR) :
   sec_tail inow y = Ok s' ->
   s_notl s' = s_notl y \/ s_notl s' = s_pos y \/ s_notl s' = 0.
 Proof.
-  unfold sec_tail. intros H. inv_bind H. inversion H0; subst; clear H0.
-  destruct (class_hedge (s_class x)).
+  unfold sec_tail. intros H.
+  destruct (s_class y); cbn [class_fi_notl class_coupon class_hedge] in H; inv_bind H;
+    inversion H0; subst; clear H0.
+  - inversion E; subst. left; reflexivity.
+  - inversion E; subst. right; left. reflexivity.
+  - right; left. erewrite sec_update_coupon_s_notl by eassumption. reflexivity.
   - right; right. reflexivity.
-  - destruct (class_fi_notl (s_class y)); destruct (class_coupon (s_class _)).
-    + right; left. erewrite sec_update_coupon_s_notl by eassumption. reflexivity.
-    + inversion E; subst. right; left. reflexivity.
-    + left. erewrite sec_update_coupon_s_notl by eassumption. reflexivity.
-    + inversion E; subst. left; reflexivity.
+  - right; right. reflexivity.
 Qed.
 
 Lemma sec_update_inv date inow (s s' : secR) :
